@@ -157,10 +157,16 @@ func MsgFromGo(x interface{}) *Msg {
 
 var Modes = []string{"message", "message_ext", "forward", "packed"}
 
+// BigEntryCounts: entry counts of the rare long entry lists.  The model's per-entry decoder gives itself fuel
+// proportional to the remaining input at every entry (coq/model/Forward.v U_entry), which makes the MODEL's
+// evaluation quadratic in the number of entries; lists are kept at a size it evaluates in seconds (array16
+// header).  The array32 header class is exercised through the alternative encoder (widened headers).
+var BigEntryCounts = []int{1200, 1500}
+
 func GenEntries(r *rand.Rand, big bool) []Entry {
 	n := []int{0, 1, 2, 3, 15, 16, 17}[r.Intn(7)]
 	if big && r.Intn(50) == 0 {
-		n = bigLens[r.Intn(2)]
+		n = BigEntryCounts[r.Intn(len(BigEntryCounts))]
 	}
 	es := make([]Entry, n)
 	tiny := r.Intn(6) == 0 // every record as small as a record can be (1-4 bytes on the wire)
